@@ -59,6 +59,8 @@ THEOREMS = [
     'C13_inline_total',
     'C13_acyclic_unique_model',
     'C13_fill_geometry_den',
+    'C13_cell_transform_den',
+    'C13_fill_geometry_den_tr',
     'C13_fill_flags_lockstep',
     'C13_options_same_geometry',
 ]
